@@ -14,7 +14,7 @@ fn history(rng: &mut Rng, l: &mut Login, n: usize, fails: &mut Vec<String>, inje
     let mut stale: Vec<[u8; 16]> = Vec::new();
     for _ in 0..n {
         let cur = *l.server.reconnect_challenge_data();
-        let kind = rng.below(8);
+        let kind = rng.below(9);
         let cc: [u8; 16] = rng.arr();
         vr::install_tape(&cc);
         let honest = l.client.calculate_reconnect_values(cur);
@@ -28,6 +28,8 @@ fn history(rng: &mut Rng, l: &mut Login, n: usize, fails: &mut Vec<String>, inje
             4 if !stale.is_empty() => { let s = *rng.pick(&stale); (cc, sha(&[&ub, &cc, &s, &l.ks]), "proof for a stale challenge") }
             5 => { let mut k2 = l.ks; k2[rng.below(40) as usize] ^= 1; (cc, sha(&[&ub, &cc, &cur, &k2]), "wrong session key") }
             6 => { let mut u2 = ub.clone(); u2[0] ^= 1; (cc, sha(&[&u2, &cc, &cur, &l.ks]), "wrong username") }
+            8 => { if rng.chance(1, 2) { (cur, sha(&[&ub, &cur, &cur, &l.ks]), "client data mirrors the challenge on offer, proof correct for it") }
+                   else { (cur, [0u8; 20], "client data mirrors the challenge on offer, zero proof") } }
             _ => { if rng.chance(1, 3) { let nm = near_misses(rng, &honest.proof); let (w, _) = &nm[rng.below(nm.len() as u64) as usize]; let mut p = [0u8; 20]; p.copy_from_slice(w); (cc, p, "proof near miss (cancelling / confined differences)") }
                    else if rng.chance(1, 2) { let mut p = honest.proof; p[rng.below(20) as usize] ^= 1 << rng.below(8); (cc, p, "proof bit flipped") }
                    else { let mut c = cc; c[rng.below(16) as usize] ^= 1 << rng.below(8); (c, honest.proof, "client data bit flipped") } }
